@@ -343,8 +343,8 @@ fn build_ising(lat: &Lattice, js: &[f64], gamma: f64, h: f64, cutoff: usize, see
 
 fn ising_scenarios(out: &mut Out, gen: &mut SplitMix64, thorough: bool) {
     let lats = lattices(thorough);
-    let n_scen = if thorough { 260 } else { 56 };
-    let calls = if thorough { 60 } else { 28 };
+    let n_scen = if thorough { 2400 } else { 300 };
+    let calls = if thorough { 60 } else { 40 };
     for sc in 0..n_scen {
         // the first scenarios walk through the lattices and the four (heat bath, rvb) combinations
         let lat = lats[sc % lats.len()].clone();
@@ -631,8 +631,8 @@ fn build_generic(gm: &GModel, seed: u64, loops: bool, hb: bool) -> Option<GQ> {
 
 fn generic_scenarios(out: &mut Out, gen: &mut SplitMix64, thorough: bool) {
     let models = generic_models(thorough);
-    let n_scen = if thorough { 200 } else { 48 };
-    let calls = if thorough { 60 } else { 28 };
+    let n_scen = if thorough { 1800 } else { 220 };
+    let calls = if thorough { 60 } else { 40 };
     for sc in 0..n_scen {
         let gm = models[sc % models.len()].clone();
         let loops = (sc / models.len()) % 2 == 0 || gen.coin();
@@ -730,7 +730,7 @@ fn generic_scenarios(out: &mut Out, gen: &mut SplitMix64, thorough: bool) {
 fn tempering_scenarios(out: &mut Out, gen: &mut SplitMix64, thorough: bool) {
     type TC = TemperingContainer<SplitMix64, IG>;
     let lats = lattices(false);
-    let n_scen = if thorough { 30 } else { 8 };
+    let n_scen = if thorough { 160 } else { 24 };
     for sc in 0..n_scen {
         let lat = lats[(sc * 3 + 1) % lats.len()].clone();
         let h = if gen.chance(1, 3) { 0.5 } else { 0.0 };
@@ -825,7 +825,7 @@ fn tempering_scenarios(out: &mut Out, gen: &mut SplitMix64, thorough: bool) {
 // ---------------------------------------------------------------------------------------------
 fn soak(out: &mut Out, gen: &mut SplitMix64, thorough: bool) {
     let lats = lattices(thorough);
-    let (n_runs, steps) = if thorough { (24, 6000) } else { (6, 400) };
+    let (n_runs, steps) = if thorough { (48, 20000) } else { (10, 2500) };
     for r in 0..n_runs {
         let lat = lats[(r * 5 + 2) % lats.len()].clone();
         let h = if r % 3 == 2 { 0.5 } else { 0.0 };
@@ -910,7 +910,7 @@ fn soak(out: &mut Out, gen: &mut SplitMix64, thorough: bool) {
     }
     // generic sampler soak
     let models = generic_models(thorough);
-    let (n_runs, steps) = if thorough { (12, 6000) } else { (4, 400) };
+    let (n_runs, steps) = if thorough { (24, 20000) } else { (6, 2500) };
     for r in 0..n_runs {
         let gm = models[(r * 3 + 1) % models.len()].clone();
         let seed = gen.next();
@@ -977,7 +977,7 @@ fn show_bc(b: &BondContainer<usize>) -> (String, usize) {
 }
 
 fn bc_mode(out: &mut Out, gen: &mut SplitMix64, thorough: bool) {
-    let n = if thorough { 3000 } else { 400 };
+    let n = if thorough { 20000 } else { 2000 };
     for ci in 0..n {
         let len = 1 + gen.below(if ci % 10 == 0 { 40 } else { 12 }) as usize;
         let span = 1 + gen.below(8);
